@@ -19,7 +19,10 @@ code -> spec: (a) the recorded syscalls of a real sync (tar's work observed thro
               every mutation and inside the unpack; after each cut the tree is inspected (TreeOldOrNew,
               EtagSound) and the NEXT sync is run in a "fresh process" (new syncer, exit handlers of
               the crashed one never ran) against the good server (Recover) or against a failing server
-              (FaultKeepsTree); (c) fault runs: tree untouched (FaultKeepsTree), next sync completes.
+              (FaultKeepsTree); (c) fault runs: tree untouched (FaultKeepsTree), next sync completes; (d) one
+              filesystem call of the sync fails (EIO / ENOSPC at every mutation): after the syncer's own
+              handling and its exit cleanup the path still holds the old or the new tree (TreeOldOrNew), and
+              the next sync completes (model: fault "mvfail" - the rename that moves the new tree in fails).
               All judged by TarSync_Trace with the operators of TarSync.tla.
 Carve-outs  : https, .modified handled like .etag; a process exit is simulated by running (or, for a
               crash, dropping) the atexit handlers the syncer registered; the download temp file lives
